@@ -260,12 +260,16 @@ func c03Check(c C03Case, rec *Recorder) *Disc {
 	return nil
 }
 
-func TestC03(t *testing.T) {
-	Prop[C03Case]{ID: "C03", Gen: c03Gen, Check: c03Check,
+func c03Prop() Prop[C03Case] {
+	return Prop[C03Case]{ID: "C03", Gen: c03Gen, Check: c03Check,
 		Rule: "generator: valid configuration (all switches, origin kinds incl. allow-all, method/header/response-header lists, max-age, status) x debug x batch of 4-24 arbitrary requests " +
 			"(any method; Origin/ACRM/ACRH/ACRPN absent, zero-valued, single, multi-valued; values from config-derived pools: allowed, near-miss, 34 malformations incl. upper case, userinfo, path/query/fragment, " +
 			"bracketed non-IP host, unmatched bracket, leading-zero/6-digit/zero/65536 port, NUL, non-ASCII, null, empty, 1KiB-1MiB values, junk bytes). evaluations = responses checked against the five invariants. " +
 			"non-trivial = request whose Origin is present and malformed, a near-miss or multi-valued, or a preflight under a credentialed configuration; distinct by (configuration, debug, request).",
 		Assumptions: []string{"inner handler sets no CORS header", "origin model as in C01; an origin that does not match the serialisation grammar is 'not an origin' and hence not allowed",
-			"known finding bracketed-host-echo is excluded by signature and counted"}}.Run(t)
+			"known finding bracketed-host-echo is excluded by signature and counted"}}
 }
+
+func TestC03(t *testing.T) { c03Prop().Run(t) }
+
+func FuzzC03(f *testing.F) { FuzzProp(f, c03Prop()) }
